@@ -462,7 +462,8 @@ let run_tty u line =
     let cfg = { cfg with c_tab_stop = nat_of_int (int_of_string (get "tab_stop" "8"));
                          c_indent_size = nat_of_int (int_of_string (get "indent_size" "2"));
                          c_prompt_limit = nat_of_int (int_of_string (get "prompt_limit" "100"));
-                         c_show_all = (get "show_all" "0" = "1") } in
+                         c_show_all = (get "show_all" "0" = "1");
+                         c_bell = (get "bell" "1" = "1") } in
     let prompt = parse_str (get "prompt" "-") in
     let initial = match get "initial" "" with
       | "" -> None
